@@ -8,6 +8,7 @@ import (
 	"net/http"
 	"strings"
 	"time"
+	"unicode/utf8"
 
 	"github.com/gobwas/ws"
 	"google.golang.org/genproto/googleapis/rpc/code"
@@ -410,7 +411,15 @@ func (m *Mux) serveHTTP(w http.ResponseWriter, r *http.Request) error {
 			// TODO: limit message size.
 
 			code := WSStatusCode(s.Code())
-			f := ws.NewCloseFrame(ws.NewCloseFrameBody(code, s.Message()))
+			// A close frame carries at most 123 bytes of valid UTF-8.
+			reason := s.Message()
+			if max := ws.MaxControlFramePayloadSize - 2; len(reason) > max {
+				reason = reason[:max]
+				for len(reason) > 0 && !utf8.ValidString(reason) {
+					reason = reason[:len(reason)-1]
+				}
+			}
+			f := ws.NewCloseFrame(ws.NewCloseFrameBody(code, reason))
 			b, err := ws.CompileFrame(f)
 			if err != nil {
 				return err
